@@ -229,6 +229,13 @@ pub enum F {
     PgArrayAggDistinct,
     PgDateTrunc,
     PgJsonBuildObject,
+    PgPlaintoTsquery,
+    PgPlaintoTsqueryCfg,
+    PgPhrasetoTsquery,
+    PgPhrasetoTsqueryCfg,
+    PgWebsearchToTsquery,
+    PgWebsearchToTsqueryCfg,
+    PgTsRankCd,
 }
 
 /// a value of any supported type (used by C02); floats are stored as bits of a finite number
@@ -433,6 +440,12 @@ fn bin_entry(l: SimpleExpr, op: Op, r: &E, d: Dialect, k: u64) -> SimpleExpr {
         let c = a(COLS[*i as usize % 4]);
         return if op == Op::Eq { l.equals(c) } else { l.not_equals(c) };
     }
+    // Postgres `ILIKE` / `NOT ILIKE` with a text pattern: the named methods of PgExpr
+    if let (Op::PgILike | Op::PgNotILike, E::Text(t)) = (op, r) {
+        if k % 3 != 0 {
+            return if op == Op::PgILike { PgExpr::ilike(l, t.as_str()) } else { PgExpr::not_ilike(l, t.as_str()) };
+        }
+    }
     let rb = r.build(d);
     macro_rules! named {
         ($m:ident) => {
@@ -521,8 +534,8 @@ impl E {
                     _ => Func::avg(x).into(),
                 }
             }
-            E::CountStar => Func::count(Expr::col(Asterisk)).into(),
-            E::Star => Expr::col(Asterisk).into(),
+            E::CountStar => Func::count(if self.entry() % 2 == 0 { Expr::col(Asterisk) } else { Expr::asterisk() }).into(),
+            E::Star => Expr::asterisk().into(),
             E::AsEnum(e) => e.build(d).as_enum(a("etype")),
             E::Cond { any, negate, members } => {
                 // inside an expression the same meaning is spelled with and / or / not
@@ -566,10 +579,12 @@ impl E {
                 if let Some(c) = esc {
                     l = l.escape(*c);
                 }
-                if *not {
-                    x.build(d).not_like(l)
-                } else {
-                    x.build(d).like(l)
+                // on the expression itself (inherent methods of SimpleExpr) or through the Expr wrapper (ExprTrait)
+                match (*not, self.entry() % 2) {
+                    (true, 0) => x.build(d).not_like(l),
+                    (false, 0) => x.build(d).like(l),
+                    (true, _) => Expr::expr(x.build(d)).not_like(l),
+                    (false, _) => Expr::expr(x.build(d)).like(l),
                 }
             }
             E::In { not, x, list } => {
@@ -624,6 +639,16 @@ impl E {
                     F::PgStartsWith => {
                         let x = it.next().unwrap();
                         PgFunc::starts_with(x, it.next().unwrap())
+                    }
+                    F::PgPlaintoTsquery => PgFunc::plainto_tsquery(it.next().unwrap(), None),
+                    F::PgPlaintoTsqueryCfg => PgFunc::plainto_tsquery(it.next().unwrap(), Some(PG_REGCONFIG)),
+                    F::PgPhrasetoTsquery => PgFunc::phraseto_tsquery(it.next().unwrap(), None),
+                    F::PgPhrasetoTsqueryCfg => PgFunc::phraseto_tsquery(it.next().unwrap(), Some(PG_REGCONFIG)),
+                    F::PgWebsearchToTsquery => PgFunc::websearch_to_tsquery(it.next().unwrap(), None),
+                    F::PgWebsearchToTsqueryCfg => PgFunc::websearch_to_tsquery(it.next().unwrap(), Some(PG_REGCONFIG)),
+                    F::PgTsRankCd => {
+                        let x = it.next().unwrap();
+                        PgFunc::ts_rank_cd(x, it.next().unwrap())
                     }
                     F::PgGenRandomUuid => PgFunc::gen_random_uuid(),
                     F::PgJsonAgg => PgFunc::json_agg(it.next().unwrap()),
@@ -705,10 +730,12 @@ impl E {
                     _ => t.is_in(rows.iter().map(|r| SimpleExpr::from(Expr::tuple(r.iter().map(|x| SimpleExpr::from(Expr::val(*x))).collect::<Vec<_>>())))),
                 }
             }
-            E::Keyword(k) => match k % 3 {
+            E::Keyword(k) => match k % 4 {
                 0 => Expr::current_date().into(),
                 1 => Expr::current_time().into(),
-                _ => Expr::current_timestamp().into(),
+                2 => Expr::current_timestamp().into(),
+                // a keyword the library has no constructor for (written without quotes)
+                _ => Expr::custom_keyword(a("LOCALTIMESTAMP")).into(),
             },
             E::Exists => Expr::exists(subquery()),
             E::ScalarSub => SimpleExpr::SubQuery(None, Box::new(subquery().into_sub_query_statement())),
@@ -822,6 +849,10 @@ impl E {
                     (F::PgToTsquery | F::PgToTsqueryCfg, _) => "TO_TSQUERY",
                     (F::PgToTsvectorCfg, _) => "TO_TSVECTOR",
                     (F::PgTsRank, _) => "TS_RANK",
+                    (F::PgPlaintoTsquery | F::PgPlaintoTsqueryCfg, _) => "PLAINTO_TSQUERY",
+                    (F::PgPhrasetoTsquery | F::PgPhrasetoTsqueryCfg, _) => "PHRASETO_TSQUERY",
+                    (F::PgWebsearchToTsquery | F::PgWebsearchToTsqueryCfg, _) => "WEBSEARCH_TO_TSQUERY",
+                    (F::PgTsRankCd, _) => "TS_RANK_CD",
                     (F::PgStartsWith, _) => "STARTS_WITH",
                     (F::PgGenRandomUuid, _) => "GEN_RANDOM_UUID",
                     (F::PgJsonAgg, _) => "JSON_AGG",
@@ -832,7 +863,7 @@ impl E {
                 let mut items: Vec<PT> = args.iter().map(|e| e.expect(d, params)).collect();
                 // arguments the function constructors add themselves (bound values)
                 match f {
-                    F::PgToTsqueryCfg | F::PgToTsvectorCfg => items.insert(0, if params { PT::Param(None) } else { PT::Num(PG_REGCONFIG.to_string()) }),
+                    F::PgToTsqueryCfg | F::PgToTsvectorCfg | F::PgPlaintoTsqueryCfg | F::PgPhrasetoTsqueryCfg | F::PgWebsearchToTsqueryCfg => items.insert(0, if params { PT::Param(None) } else { PT::Num(PG_REGCONFIG.to_string()) }),
                     F::PgDateTrunc => items.insert(0, if params { PT::Param(None) } else { PT::Str("day".into()) }),
                     _ => {}
                 }
@@ -861,7 +892,7 @@ impl E {
                     rows_n(cols.len(), rows).iter().map(|r| PT::Tuple(r.iter().map(|x| cell(*x)).collect())).collect(),
                 )
             }
-            E::Keyword(k) => PT::Kw(["CURRENT_DATE", "CURRENT_TIME", "CURRENT_TIMESTAMP"][(*k % 3) as usize].into()),
+            E::Keyword(k) => PT::Kw(["CURRENT_DATE", "CURRENT_TIME", "CURRENT_TIMESTAMP", "LOCALTIMESTAMP"][(*k % 4) as usize].into()),
             E::Exists => PT::Sub(Some("EXISTS".into()), sub_text(d, params)),
             E::ScalarSub => PT::Sub(None, sub_text(d, params)),
             E::Quantified(x, op, q) => {
@@ -1181,6 +1212,13 @@ pub fn expr(d: Dialect, depth: u32, engine: bool) -> BoxedStrategy<E> {
                                     F::PgArrayAggDistinct,
                                     F::PgDateTrunc,
                                     F::PgJsonBuildObject,
+                                    F::PgPlaintoTsquery,
+                                    F::PgPlaintoTsqueryCfg,
+                                    F::PgPhrasetoTsquery,
+                                    F::PgPhrasetoTsqueryCfg,
+                                    F::PgWebsearchToTsquery,
+                                    F::PgWebsearchToTsqueryCfg,
+                                    F::PgTsRankCd,
                                 ]);
                             }
                         }
@@ -1189,7 +1227,8 @@ pub fn expr(d: Dialect, depth: u32, engine: bool) -> BoxedStrategy<E> {
                             F::Random | F::PgGenRandomUuid => 0,
                             F::Abs | F::CharLength | F::Lower | F::Upper | F::Round | F::Md5 | F::BitAndAgg | F::BitOrAgg => 1,
                             F::PgToTsquery | F::PgToTsqueryCfg | F::PgToTsvectorCfg | F::PgJsonAgg | F::PgArrayAgg | F::PgArrayAggDistinct | F::PgDateTrunc => 1,
-                            F::IfNull | F::RoundPrec | F::PgTsRank | F::PgStartsWith | F::PgJsonBuildObject => 2,
+                            F::PgPlaintoTsquery | F::PgPlaintoTsqueryCfg | F::PgPhrasetoTsquery | F::PgPhrasetoTsqueryCfg | F::PgWebsearchToTsquery | F::PgWebsearchToTsqueryCfg => 1,
+                            F::IfNull | F::RoundPrec | F::PgTsRank | F::PgTsRankCd | F::PgStartsWith | F::PgJsonBuildObject => 2,
                             _ => args.len(),
                         };
                         E::Func(f, args.into_iter().take(n).collect())
@@ -1210,7 +1249,7 @@ pub fn expr(d: Dialect, depth: u32, engine: bool) -> BoxedStrategy<E> {
         ];
         if !engine {
             choices.push((1, Just(E::ScalarSub).boxed()));
-            choices.push((1, (0u8..3).prop_map(E::Keyword).boxed()));
+            choices.push((1, (0u8..4).prop_map(E::Keyword).boxed()));
             choices.push((
                 1,
                 (proptest::collection::vec(inner.clone(), 2..3), proptest::sample::select(vec![Op::Eq, Op::Ne, Op::Lt]), proptest::collection::vec(inner.clone(), 2..3))
